@@ -78,7 +78,26 @@ let lit_mode file =
         Printf.printf "S %s %d\n" h (match Model.denote (chars_of_hex h) with Some _ -> 1 | None -> 0)
       | ["L"; h; cand] ->
         let cs = chars_of_hex h in
-        let den = Model.denote cs in
+        (* value through the symbolic form (proved equal to denote: Literal_Proofs.denote_sci_spec); the power of ten
+           is computed here with zarith.  For exponents of moderate size [denote] itself is evaluated and compared. *)
+        let sci = Model.denote_sci cs in
+        let den, chk = match sci with
+          | None -> (None, (match Model.denote cs with None -> "1" | Some _ -> "0"))
+          | Some (((neg, n), d), e) ->
+            let n = zarith_of_z n and d = zarith_of_z d and e = zarith_of_z e in
+            if Z.gt (Z.abs e) (Z.of_int 120000) then (None, "huge")
+            else begin
+              let e = Z.to_int e in
+              let p = Z.pow (Z.of_int 10) (abs e) in
+              let n = if neg then Z.neg n else n in
+              let q = if e >= 0 then q_of_zz (Z.mul n p) d else q_of_zz n (Z.mul d p) in
+              let chk = if abs e <= 400 then
+                  (match Model.denote cs with
+                   | Some q' -> if string_of_q q' = string_of_q q then "1" else "0"
+                   | None -> "0")
+                else "skip" in
+              (Some q, chk)
+            end in
         let code = Model.rat_code pw cs in
         let lpf = Model.lpf_value pw cs in
         let nd = match den with
@@ -89,11 +108,13 @@ let lit_mode file =
                let n, _ = zz_of_q q in
                if Model.overflowsb q && ((Z.sign n < 0) = neg) then "ovf1" else "ovf0")
             else (match dbl_of_tok cand with
-                | Model.DFin (m, e) -> if Model.nearest_doubleb q m e then "1" else "0"
+                | Model.DFin (m, e) ->
+                  if Z.sign (zarith_of_z m) = 0 && Model.underflowsb q then "1"
+                  else if Model.nearest_doubleb q m e then "1" else "0"
                 | _ -> "0") in
-        Printf.printf "L %s den=%s code=%s lpf=%s nd=%s\n" h
-          (match den with Some q -> string_of_q q | None -> "none")
-          (string_of_outcome code) (string_of_outcome lpf) nd
+        Printf.printf "L %s den=%s code=%s lpf=%s nd=%s chk=%s\n" h
+          (match den with Some q -> string_of_q q | None -> if chk = "huge" then "huge" else "none")
+          (string_of_outcome code) (string_of_outcome lpf) nd chk
       | ["P"; q] ->
         let cs = Model.print_q (q_of_string q) in
         Printf.printf "P %s %s\n" (hex_of_chars cs)
